@@ -48,7 +48,7 @@ type PFOp struct {
 	Muts     []Mut  `json:"muts,omitempty"`
 }
 
-var mutKinds = []string{"flipbit", "drop", "dup", "swap", "tohash", "nil", "truncate", "extend", "root", "version", "otherkey", "othertree", "replay", "empty", "cutentry", "growentry", "leafvalue", "dropleaf"}
+var mutKinds = []string{"flipbit", "drop", "dup", "swap", "tohash", "nil", "truncate", "extend", "root", "version", "otherkey", "othertree", "replay", "empty", "cutentry", "growentry", "leafvalue", "dropleaf", "fullenc", "fullenc", "fullenc"}
 
 func genMuts(r *core.Rand, maxCalls int) []Mut {
 	n := r.Pick([]int{0, 5, 2, 1})
@@ -306,6 +306,73 @@ func (b *byzSyncer) mutate(m Mut, honest *syncer.ProofResponse, alt func(kind st
 				}
 			}
 		}
+	case "fullenc":
+		// Replace the compact encoding of an internal node by its full
+		// encoding (which carries the true child hashes, so the node
+		// unmarshals with the right hash already set) and then forge a leaf
+		// below it.  A verifier that trusts the embedded hashes instead of
+		// recomputing them from the children it actually walked accepts it.
+		info := alignProof(&r.Proof)
+		var cands []int
+		for i := 0; i < n; i++ {
+			if ei, ok := info[i]; ok && ei.internal != nil {
+				cands = append(cands, i)
+			}
+		}
+		if len(cands) == 0 {
+			break
+		}
+		i := cands[m.A%len(cands)]
+		ei := info[i]
+		var enc []byte
+		if m.B%4 == 3 {
+			// Compact encoding plus the true child hashes only (leaf stays
+			// a separate entry in V1).
+			if r.Proof.V == 0 {
+				enc, _ = ei.internal.CompactMarshalBinaryV0()
+			} else {
+				enc, _ = ei.internal.CompactMarshalBinaryV1()
+			}
+			lh, rh := ei.internal.Left.GetHash(), ei.internal.Right.GetHash()
+			enc = append(append(enc, lh[:]...), rh[:]...)
+		} else {
+			if ei.internal.LeafNode != nil && ei.internal.LeafNode.Node == nil {
+				break // leaf only known by hash: no full encoding possible
+			}
+			enc, _ = ei.internal.MarshalBinary()
+		}
+		if len(enc) == 0 {
+			break
+		}
+		es[i] = append([]byte{0x01}, enc...)
+		// Forge a leaf entry inside the subtree.
+		var leaves []int
+		for j := i + 1; j < ei.end && j < n; j++ {
+			if ej, ok := info[j]; ok && ej.leaf != nil {
+				leaves = append(leaves, j)
+			}
+		}
+		if len(leaves) == 0 {
+			break
+		}
+		j := leaves[(m.A/7)%len(leaves)]
+		switch m.B % 3 {
+		case 0:
+			es[j] = nil
+		default:
+			lf := &node.LeafNode{Key: append(node.Key{}, info[j].leaf.Key...), Value: append(append([]byte{}, info[j].leaf.Value...), byte(m.B>>2))}
+			if m.B%3 == 2 && len(lf.Key) > 0 {
+				// Also move the key (stays under the same parent label most of the time).
+				lf.Key[len(lf.Key)-1] ^= 1
+			}
+			var lenc []byte
+			if r.Proof.V == 0 {
+				lenc, _ = lf.CompactMarshalBinaryV0()
+			} else {
+				lenc, _ = lf.CompactMarshalBinaryV1()
+			}
+			es[j] = append([]byte{0x01}, lenc...)
+		}
 	case "dropleaf":
 		// Replace a leaf entry by nil (claim absence).
 		for off := 0; off < n; off++ {
@@ -321,6 +388,51 @@ func (b *byzSyncer) mutate(m Mut, honest *syncer.ProofResponse, alt func(kind st
 		}
 	}
 	return r
+}
+
+// entInfo describes the node a proof entry stands for.
+type entInfo struct {
+	internal *node.InternalNode // with true child pointers (hashes) set
+	leaf     *node.LeafNode
+	end      int // index one past the last entry of this entry's subtree
+}
+
+// alignProof verifies an honest proof and maps entry indexes to the nodes
+// they encode, following the verifier's pre-order layout.
+func alignProof(p *syncer.Proof) map[int]entInfo {
+	var pv syncer.ProofVerifier
+	rootPtr, err := pv.VerifyProof(context.Background(), p.UntrustedRoot, p)
+	info := map[int]entInfo{}
+	if err != nil || rootPtr == nil {
+		return info
+	}
+	var walk func(idx int, ptr *node.Pointer) int
+	walk = func(idx int, ptr *node.Pointer) int {
+		if idx >= len(p.Entries) {
+			return idx
+		}
+		e := p.Entries[idx]
+		if e == nil || len(e) == 0 || e[0] != 0x01 || ptr == nil || ptr.Node == nil {
+			return idx + 1
+		}
+		switch nd := ptr.Node.(type) {
+		case *node.LeafNode:
+			info[idx] = entInfo{leaf: nd, end: idx + 1}
+			return idx + 1
+		case *node.InternalNode:
+			pos := idx + 1
+			if p.V == 1 {
+				pos = walk(pos, nd.LeafNode)
+			}
+			pos = walk(pos, nd.Left)
+			pos = walk(pos, nd.Right)
+			info[idx] = entInfo{internal: nd, end: pos}
+			return pos
+		}
+		return idx + 1
+	}
+	walk(0, rootPtr)
+	return info
 }
 
 func (b *byzSyncer) respond(honest *syncer.ProofResponse, err error, alt func(kind string) *syncer.ProofResponse) (*syncer.ProofResponse, error) {
